@@ -352,6 +352,16 @@ func compareDispatch(w *core.W, c interface{}, prop string, model *rmodel.Model,
 			return false
 		}
 		w.Count("other-property-deviation(C01)")
+		// C02 still has something to say about what the implementation did dispatch: the values handed to the
+		// handler must respect the declaration of the route that was chosen, whichever route the model expected
+		if obs.found {
+			if rt := model.Routes[obs.routeIdx]; rt != nil {
+				if msg := observedRoutePredicates(w, path, rt, obs); msg != "" {
+					w.Violate("predicate", c, fmt.Sprintf("path %q dispatched to route #%d %q %s: %s", path, obs.routeIdx, rt.Canon(), tag, msg))
+					return false
+				}
+			}
+		}
 		return true
 	}
 	if best == nil {
@@ -531,6 +541,45 @@ func paramPredicates(w *core.W, path string, best *rmodel.Deriv, obs observed) s
 	w.Count("roundtrip-checked")
 	if got != want {
 		return fmt.Sprintf("round trip: URLPath(params, withOptional=%v) = %q, want %q", usedOptional, got, want)
+	}
+	return ""
+}
+
+// observedRoutePredicates judges the values the implementation bound against the declaration of the route it
+// chose - without the model's derivation (used when model and implementation disagree on the dispatch).
+func observedRoutePredicates(w *core.W, path string, rt *rmodel.Route, obs observed) string {
+	if strings.Contains(path, "%") {
+		return ""
+	}
+	for i := range rt.Segs {
+		sg, _ := rmodel.Classify(&rt.Segs[i])
+		for _, b := range sg.Binds {
+			if b == "route" && obs.flame {
+				return ""
+			}
+		}
+		switch sg.Kind {
+		case rmodel.KPlaceholder:
+			if v, ok := obs.params[sg.Binds[0]]; ok && strings.Contains(v, "/") {
+				return fmt.Sprintf("placeholder %q = %q spans more than one segment", sg.Binds[0], v)
+			}
+		case rmodel.KAll:
+			w.Count("predicate:matchall-span(observed route)")
+			if v, ok := obs.params[sg.Binds[0]]; ok && sg.Capture > 0 && strings.Count(v, "/")+1 > sg.Capture {
+				return fmt.Sprintf("match-all %q = %q spans %d segments, capture limit %d", sg.Binds[0], v, strings.Count(v, "/")+1, sg.Capture)
+			}
+		case rmodel.KRegex:
+			for k, b := range sg.Binds {
+				if sg.Exprs[k] == "" {
+					continue
+				}
+				if re, err := regexp.Compile("^(?:" + sg.Exprs[k] + ")$"); err == nil {
+					if v, ok := obs.params[b]; ok && !re.MatchString(v) {
+						return fmt.Sprintf("bind %q = %q does not fully match its own expression /%s/", b, v, sg.Exprs[k])
+					}
+				}
+			}
+		}
 	}
 	return ""
 }
